@@ -178,16 +178,30 @@ func runS(c *kit.Ctx, r *kit.Rand, idx int) {
 	}
 	var gclaims []string
 	anyPinned, anyFallback := false, false
+	_, heldByHost := rm.VerifC17Snapshot()
 	for k, nc := range results.NewNodeClaims {
 		name := fmt.Sprintf("c%d", k)
 		hostIdx[nc.VerifC17Hostname()] = name
 		jc := jClaim{Host: name, Pool: nc.NodePoolName, Pods: len(nc.Pods), Pinned: []string{}, Cands: []string{}}
 		jc.IsPinned = nc.Requirements.Has(v1alpha1.LabelReservationID)
 		if jc.IsPinned {
-			jc.Pinned = sortedCopy(nc.Requirements.Get(v1alpha1.LabelReservationID).Values())
+			jc.Pinned = admitted(nc.Requirements.Get(v1alpha1.LabelReservationID), tpls)
+		}
+		holding := len(heldByHost[nc.VerifC17Hostname()]) > 0
+		explicit := false
+		for _, p := range nc.Pods {
+			if scheduling.NewPodRequirements(p).Has(v1alpha1.LabelReservationID) {
+				explicit = true
+			}
+		}
+		switch {
+		case holding:
 			anyPinned = true
 			c.Count("S:claim:pinned")
-		} else {
+			if explicit {
+				c.Count("S:claim:pinned-under-an-explicit-reservation-id-requirement")
+			}
+		default:
 			jc.Cands = implCands(nc.InstanceTypeOptions, nc.Requirements)
 			if len(jc.Cands) > 0 {
 				anyFallback = true
